@@ -1,5 +1,5 @@
 SPECIFICATION Spec
 CONSTANTS
   MaxChars = 4
-INVARIANTS Emit RoundTrip HalfEven
+INVARIANTS Emit RoundTrip
 CHECK_DEADLOCK FALSE
